@@ -157,17 +157,22 @@ def renderHsErr : HsErr → String
   | .notTLS => "err:other"
   | .alert a => "err:alert:" ++ toString a
 
-/-- model of Conn.readHandshake on plaintext records -/
-def readHS (haveVers tls12 : Bool) (records : List Bytes) : String :=
-  match readHandshakeBytes haveVers records with
-  | .error e => renderHsErr e
-  | .ok msg =>
-    match kindOfType (msg.getD 0 0) tls12 with
-    | none => "err:alert:10"
-    | some kind =>
-      match umKind kind msg with
-      | some r => if r.startsWith "ok" then kind ++ " " ++ r else if r == "rej" then "err:alert:10" else "crash"
-      | none => "bad-op"
+/-- model of up to `k` consecutive Conn.readHandshake calls on plaintext records (a failed call leaves a
+    sticky error: nothing is read after it) -/
+def readHS (haveVers tls12 : Bool) : Nat → List Bytes → Bytes → List String
+  | 0, _, _ => []
+  | k + 1, records, hand =>
+    match readHandshakeStep haveVers records hand with
+    | .error e => [renderHsErr e]
+    | .ok (msg, hand', rest) =>
+      match kindOfType (msg.getD 0 0) tls12 with
+      | none => ["err:alert:10"]
+      | some kind =>
+        match umKind kind msg with
+        | some r =>
+          if r.startsWith "ok" then (kind ++ " " ++ r) :: readHS haveVers tls12 k rest hand'
+          else if r == "rej" then ["err:alert:10"] else ["crash"]
+        | none => ["bad-op"]
 
 def lenTag (n : Nat) : String :=
   if n == 0 then "len0" else if n < 255 then "len<255" else if n ≤ 257 then "len~256"
@@ -204,11 +209,11 @@ def run (op impl : String) : Ans :=
     | some recs =>
       let hv := flags.toList.getD 0 '0' == '1'
       let tls12 := flags.toList.getD 1 '0' == '1'
-      let m := readHS hv tls12 recs
+      let m := ";".intercalate (readHS hv tls12 3 recs [])
       -- segmentation must not matter: as long as no record trips a size rule, the result is the one for the
       -- same bytes delivered in a single record
       let small := recs.all fun r => r.length < 0x3000
-      let whole := readHS hv tls12 [recs.foldr (· ++ ·) []]
+      let whole := ";".intercalate (readHS hv tls12 3 [recs.foldr (· ++ ·) []] [])
       let total := (recs.foldr (· ++ ·) ([] : Bytes)).length
       { model := m
         verdict := if impl.startsWith "PANIC" then "FAIL:panic-readHandshake"
